@@ -25,6 +25,7 @@ TrDecode ==
     /\ Ev.op = "decode" /\ Ev.out = "ok" /\ UNCHANGED vars
     /\ LET d == DescOf(Ev.desc) IN
        /\ LogOf(Ev.log) = ExpectedLog(d)
+       /\ Ev.stale = 0          \* every hook call reached the function bound to its name when this description was decoded
        \* the resulting model: exactly the listed systems with their declared scheduling, exactly the listed agents
        \* (and built from the class of the module the entry names: `__main__` when it names none)
        /\ {<<Ev.final.systems[i][1], Ev.final.systems[i][2], Ev.final.systems[i][3], Ev.final.systems[i][4], Ev.final.systems[i][5],
